@@ -244,6 +244,51 @@ def w_options(item, seed=0):
     return t
 
 
+REUSE_CASES = [("0", (0, 0)), ("0", (3, -5)), ("blob", (-2, 1)), ("1", (1, 4)), ("0", (0, 2))]
+
+
+def w_buffer_reuse(item, seed=0, depth=2):
+    """Call HISTORIES on reused buffers: the same array / tensor OBJECTS are refilled in place between calls (a running
+    reference, a preallocated frame buffer). Every call must return the shift of the CURRENT contents — the estimator
+    is a function of the values it is given, not of the identity of the objects holding them."""
+    import torch
+
+    from quantem.core.utils import imaging_utils as U
+
+    impl, shape, up, first = item
+    shape = tuple(shape)
+    t = Tally()
+    tails = [[b] for b in range(len(REUSE_CASES))] if depth == 2 else [[b, c] for b in range(len(REUSE_CASES)) for c in range(len(REUSE_CASES))]
+    for tail in tails:
+        hist = [first] + tail
+        if impl == "torch":
+            ref_buf = torch.zeros(shape, dtype=torch.float64)
+            im_buf = torch.zeros(shape, dtype=torch.float64)
+        else:
+            ref_buf = np.zeros(shape)
+            im_buf = np.zeros(shape)
+        est = None
+        for step, ci in enumerate(hist):
+            which, s = REUSE_CASES[ci]
+            im = make_image(shape, which, seed)
+            ref = fshift(im, s)
+            if impl == "torch":
+                ref_buf.copy_(torch.tensor(ref))
+                im_buf.copy_(torch.tensor(im))
+                est = U.cross_correlation_shift_torch(ref_buf, im_buf, upsample_factor=up).detach().cpu().numpy().astype(float)
+            else:
+                np.copyto(ref_buf, ref)
+                np.copyto(im_buf, im)
+                est = np.asarray(U.cross_correlation_shift(ref_buf, im_buf, upsample_factor=up), float)
+        which, s = REUSE_CASES[hist[-1]]
+        case = {"part": "buffer_reuse", "impl": impl, "shape": list(shape), "upsample": up, "history": [[REUSE_CASES[c][0], list(REUSE_CASES[c][1])] for c in hist]}
+        e = float(np.max(np.abs(wrapdiff(est, s, shape))))
+        t.case(key=case, nontrivial=len(set(hist)) > 1, outcome=[round(float(v), 3) for v in est])
+        if not np.all(np.isfinite(est)) or e > EXACT_TOL[impl]:
+            t.fail({"relation": "result_depends_only_on_current_contents", "impl": impl}, case, f"{impl}: buffers refilled in place, history {case['history']}: the last call returned {est.tolist()}, applied shift {list(s)} (error {e:.4g} px)")
+    return t
+
+
 def run(ctx):
     q = ctx.quick
     ctx.assume(
@@ -276,12 +321,23 @@ def run(ctx):
     opt_items = list(itertools.product([(8, 11), (9, 9)] if q else shapes, ["0"] if q else ["0", "blob"], [1, 3, 16] if q else FACTORS, [False, True], [False, True], [False, True], ["none", "larger"]))
     opt_items = [o for o in opt_items if o[4] or not o[5]]  # fft_output only matters with return_shifted_image
     ctx.pmap(w_options, opt_items, label="NumPy options", seed=ctx.seed)
+    reuse = list(itertools.product(impls, [(8, 11)] if q else [(8, 11), (9, 9)], [1, 4] if q else [1, 3, 8], range(len(REUSE_CASES))))
+    ctx.coverage["bounds"]["buffer_reuse"] = {"cases": [[w, list(sh)] for w, sh in REUSE_CASES], "depth": 2 if q else 3}
+    ctx.pmap(w_buffer_reuse, reuse, chunk=1, label="reused buffers (call histories)", seed=ctx.seed, depth=2 if q else 3)
     if len(ctx.tally.outcomes) < 50:
         raise Broken("too few distinct outcomes: shifts did not vary")
 
 
 def replay(ctx, case):
     t = Tally()
+    if case.get("part") == "buffer_reuse":
+        idx = [[i for i, (w, sh) in enumerate(REUSE_CASES) if w == c[0] and list(sh) == list(c[1])][0] for c in case["history"]]
+        r = w_buffer_reuse((case["impl"], case["shape"], case["upsample"], idx[0]), seed=ctx.seed, depth=len(idx))
+        for f in r.fails:
+            if f["case"]["history"] == case["history"]:
+                print("  ", f["msg"])
+                ctx.fail(f["cls"], f["case"], f["msg"])
+        return
     check_point(t, case["impl"], tuple(case["shape"]), case["image"], tuple(case["shift"]), case["upsample"], ctx.seed, opts=case.get("opts") or None)
     im = make_image(tuple(case["shape"]), case["image"], ctx.seed)
     est, _ = estimate(case["impl"], fshift(im, case["shift"]), im, case["upsample"], case.get("opts") or None)
